@@ -150,9 +150,22 @@ impl<'a> Interpreter<'a> {
             return Err(CelError::runtime("Max call depth excceded"));
         }
 
+        #[cfg(rscel_verif)]
+        let _verif_frame = crate::verif::FrameGuard::enter(count.count(), prog.len());
+
         while pc < prog.len() {
             let oldpc = pc;
             pc += 1;
+            #[cfg(rscel_verif)]
+            {
+                let (op, arg) = crate::verif::op_tag(&prog[oldpc]);
+                crate::verif::emit(crate::verif::Event::Step {
+                    pc: oldpc,
+                    op,
+                    arg,
+                    stack_len: stack.stack.len(),
+                });
+            }
             match &prog[oldpc] {
                 ByteCode::Push(val) => stack.push_val(val.clone()),
                 ByteCode::Pop => {
@@ -487,6 +500,11 @@ impl<'a> Interpreter<'a> {
                 }
             };
         }
+
+        #[cfg(rscel_verif)]
+        crate::verif::emit(crate::verif::Event::FrameEnd {
+            stack_len: stack.stack.len(),
+        });
 
         if resolve {
             match stack.pop() {
